@@ -286,6 +286,90 @@ func TestVerif_C09_Handlers(t *testing.T) {
 		}
 		return res
 	}
+	// ---- sequential histories: an epoch is reloaded from a CAR with another layout (same blocks and CIDs, a longer
+	// header, hence other offsets) while the server keeps running; once the reload has completed, requests addressed
+	// to it must be answered as an idle server started with the new configuration answers them ----
+	if vkit.Mine(int64(len(scs))) {
+		sh2x := cargen.SimpleShape(2, 3, 2, 1)
+		sh2x.RootSha512 = true
+		e2x, err := vkBuildEpoch(filepath.Join(base, "e2x"), sh2x, true)
+		if err != nil {
+			R.Internal("build e2x: %v", err)
+			return
+		}
+		e2x.writeConfig(vkConfigOpts{})
+		var bodies []string
+		for _, b := range e2.Truth.Blocks {
+			bodies = append(bodies, fmt.Sprintf(`{"jsonrpc":"2.0","id":1,"method":"getBlock","params":[%d,{"encoding":"base64"}]}`, b.Slot))
+		}
+		for _, tx := range e2.Truth.Txs {
+			bodies = append(bodies, fmt.Sprintf(`{"jsonrpc":"2.0","id":1,"method":"getTransaction","params":[%q,{"encoding":"base64"}]}`, tx.Sig.String()))
+		}
+		answers := func(m *MultiEpoch) []string {
+			h := newMultiEpochHandler(m, nil)
+			var out []string
+			for _, b := range bodies {
+				_, resp, pan := vkRPC(h, b)
+				if pan != nil {
+					out = append(out, fmt.Sprintf("panic: %v", pan))
+				} else {
+					out = append(out, string(resp))
+				}
+			}
+			return out
+		}
+		for _, order := range []string{"old-layout -> new-layout", "new-layout -> old-layout"} {
+			first, second := e2, e2x
+			if order == "new-layout -> old-layout" {
+				first, second = e2x, e2
+			}
+			// the idle server of the second configuration (a cache of its own)
+			idleCache := vkNewCache()
+			i1, err1 := vkLoadEpoch(e1.ConfigPath, idleCache)
+			i2, err2 := vkLoadEpoch(second.ConfigPath, idleCache)
+			if err1 != nil || err2 != nil {
+				R.Internal("load: %v %v", err1, err2)
+				return
+			}
+			want := answers(vkNewMulti(2, i1, i2))
+			// the running server: serves the first configuration, answers requests, then the epoch is reloaded
+			runCache := vkNewCache()
+			r1, err1 := vkLoadEpoch(e1.ConfigPath, runCache)
+			r2, err2 := vkLoadEpoch(first.ConfigPath, runCache)
+			r2b, err3 := vkLoadEpoch(second.ConfigPath, runCache)
+			if err1 != nil || err2 != nil || err3 != nil {
+				R.Internal("load: %v %v %v", err1, err2, err3)
+				return
+			}
+			m := vkNewMulti(2, r1, r2)
+			answers(m) // warm: the shared cache now holds what was looked up in the first layout
+			if err := m.ReplaceOrAddEpoch(2, r2b); err != nil {
+				R.Internal("ReplaceOrAddEpoch: %v", err)
+				return
+			}
+			got := answers(m)
+			R.Case(true, "")
+			wrong := 0
+			firstWrong := ""
+			for i := range want {
+				if got[i] != want[i] {
+					wrong++
+					if firstWrong == "" {
+						firstWrong = fmt.Sprintf("%s answered %.200s (idle server: %.120s)", bodies[i], got[i], want[i])
+					}
+				}
+			}
+			R.Outcome(fmt.Sprintf("reload:%s:wrong=%d", order, wrong))
+			if wrong > 0 {
+				R.Violation("C09|reload|stale-after-replace", fmt.Sprintf("epoch 2 reloaded (%s, same blocks, other offsets) after it had served requests: %d of %d requests addressed to it are then answered differently from an idle server with the new configuration; first: %s", order, wrong, len(want), firstWrong),
+					map[string]interface{}{"family": "reload-history", "order": order})
+			}
+			vkDrain(0)
+			for _, ep := range []*Epoch{i1, i2, r1, r2b} {
+				ep.Close()
+			}
+		}
+	}
 	for idx, sc := range scs {
 		if !vkit.Mine(int64(idx)) {
 			continue
